@@ -689,6 +689,23 @@ pub fn run(tier: &str, seed: u64) -> i32 {
         st.driver = format!("fault-free {}", st.driver);
         report.add(st);
     }
+    // substitute rules of every form on every use site (C07's driver): supported settings on well-formed
+    // registries, so generation must not panic and must not fail
+    {
+        let (all, _, _) = enumerate(&crate::checks::c07::DSubst, 3, 1_000_000);
+        let cases: Vec<Case> = all
+            .iter()
+            .filter(|(_, s)| s.use_.is_some() && s.rule.is_some())
+            .map(|(_, s)| Case::new(RegSrc::Prog(s.program()), s.spec(), "fault-free D-subst"))
+            .collect();
+        report.add(sweep(
+            "fault-free: D-subst (substitute rules of every form x every use site)",
+            &cases,
+            Duration::from_secs(60),
+            |c| json!({"case": c.note, "reg": c.reg.describe()}),
+            check_fault_free,
+        ));
+    }
     // registries produced by the real scale-info (the conformance corpus) and Polkadot
     let mut cases: Vec<Case> = crate::corpus::defs::real_registries()
         .into_iter()
